@@ -2147,6 +2147,10 @@ func (t *translator) assign(x *ast.AssignStmt, ev *env, cont func(*env) string) 
 			// the lexical scoping of the generated lets renders exactly as long as the name is never the target
 			// of a plain assignment (the join points are computed from names)
 			if old.depth != ev.depth && old.kind != 2 && !t.reassigned[id.Name] && t.a.shadow {
+				if old.kind == 0 {
+					// parameters are passed on BY NAME to the loop functions: an inner declaration would be captured
+					unsup(id, "parameter %s shadowed by :=", id.Name)
+				}
 				continue
 			}
 			if old.depth != ev.depth || old.kind != 1 || len(x.Lhs) < 2 {
@@ -2573,13 +2577,14 @@ func (t *translator) rangeStmt(x *ast.RangeStmt, rest []ast.Stmt, ev *env, k fun
 		nodes = append(nodes, r)
 	}
 	use := used(nodes)
+	redecl := t.redeclared(nodes)
 	isCarried := map[string]bool{}
 	for _, v := range carried {
 		isCarried[v.name] = true
 	}
 	var locals []*variable
 	for _, v := range ev.vars {
-		if v.kind == 1 && !isCarried[v.name] && use[v.name] && ev.index[v.name] == v {
+		if v.kind == 1 && !isCarried[v.name] && use[v.name] && ev.index[v.name] == v && !redecl[v.name] {
 			locals = append(locals, v)
 		}
 	}
@@ -2776,6 +2781,7 @@ func (t *translator) fuelLoop(l *fuelLoop, carried []*variable, rest []ast.Stmt,
 		nodes = append(nodes, r)
 	}
 	use := used(nodes)
+	redecl := t.redeclared(nodes)
 	isCarried := map[string]bool{}
 	for _, v := range carried {
 		isCarried[v.name] = true
@@ -2787,7 +2793,7 @@ func (t *translator) fuelLoop(l *fuelLoop, carried []*variable, rest []ast.Stmt,
 		}
 	}
 	for _, v := range ev.vars {
-		if v.kind == 1 && !isCarried[v.name] && use[v.name] && ev.index[v.name] == v {
+		if v.kind == 1 && !isCarried[v.name] && use[v.name] && ev.index[v.name] == v && !redecl[v.name] {
 			fixed = append(fixed, v)
 		}
 	}
